@@ -291,6 +291,8 @@ def render(reader: io.Reader, writer: io.Writer, allowed: Optional[List[str]] = 
             continue
         if d.verify and not d.verify(match):
             continue
+        # Line macro expansions enclosing the opening line (passed on to the content of a container).
+        nesting = reader.nesting()
         # Process opening delimiter.
         delimiterText = d.delimiterFilter(match, d) if d.delimiterFilter else ''
         # Read block content into lines.
@@ -323,7 +325,7 @@ def render(reader: io.Reader, writer: io.Writer, allowed: Optional[List[str]] = 
                 opentag = blockattributes.injectHtmlAttributes(opentag)
             if expand.container:
                 blockattributes.opts.container = None  # Consume before recursion.
-                text = document.render(text)
+                text = document.render(text, nesting)
             else:
                 text = utils.replaceInline(text, expand)
                 if d.name == 'html':
